@@ -577,7 +577,36 @@ pub fn shrink(f: &RunFn, seed: u64, log: Vec<u32>, property: &str, class: &str) 
                 break;
             }
         }
-        // 2. delete blocks
+        // 2a. zero whole blocks: keeps every later choice at its position, so
+        // the rest of the run is interpreted as before while the zeroed steps
+        // degenerate to the first enabled (usually harmless) action
+        let mut size = (best.len() / 2).max(1);
+        while size >= 2 {
+            let mut i = 0;
+            while i + size <= best.len() {
+                if best[i..i + size].iter().any(|v| *v != 0) {
+                    let mut cand = best.clone();
+                    for v in cand[i..i + size].iter_mut() {
+                        *v = 0;
+                    }
+                    if let Some(used) = ok(&cand, &mut execs) {
+                        if used.len() <= best.len() {
+                            best = used;
+                            improved = true;
+                        }
+                    }
+                }
+                i += size;
+                if execs >= budget_execs {
+                    break;
+                }
+            }
+            if execs >= budget_execs {
+                break;
+            }
+            size /= 2;
+        }
+        // 2b. delete blocks
         let mut size = (best.len() / 2).max(1);
         while size >= 1 {
             let mut i = 0;
